@@ -144,9 +144,10 @@ func bodyText(b bodySpec, n int, cv any) string {
 	return "error(\"bad body kind\")"
 }
 
-func funcCallback(b bodySpec, cv any, calls *int) func(any, []any) any {
+func funcCallback(b bodySpec, constFor func(int) any, calls *int) func(any, []any) any {
 	return func(x any, a []any) any {
 		*calls++
+		cv := constFor(len(a))
 		switch b.Kind {
 		case "const":
 			return cv
@@ -178,9 +179,10 @@ func funcCallback(b bodySpec, cv any, calls *int) func(any, []any) any {
 	}
 }
 
-func iterCallback(b bodySpec, cv any, calls *int) func(any, []any) gojq.Iter {
+func iterCallback(b bodySpec, constFor func(int) any, calls *int) func(any, []any) gojq.Iter {
 	return func(x any, a []any) gojq.Iter {
 		*calls++
+		cv := constFor(len(a))
 		switch b.Kind {
 		case "iempty":
 			return gojq.NewIter[any]()
@@ -226,7 +228,8 @@ func iterCallback(b bodySpec, cv any, calls *int) func(any, []any) gojq.Iter {
 
 type built struct {
 	opts   []gojq.CompilerOption
-	consts []any
+	base   []any // per registration
+	consts []any // per (registration, arity) actually handed out
 	snap   []any
 	prefix string
 	calls  int
@@ -286,12 +289,25 @@ func build(regs []regSpec) (*built, error) {
 				return nil, errors.New("constant of errplain must be a string")
 			}
 		}
-		b.consts = append(b.consts, cv)
-		b.snap = append(b.snap, univ.Copy(cv))
+		b.base = append(b.base, cv)
+		// one constant per (registration, arity), the same on every call: a
+		// literal in the body of `def f(a1;..;an)` is one value as well (the
+		// VM tells containers apart by identity under path tracking)
+		perArity := map[int]any{}
+		constFor := func(n int) any {
+			v, ok := perArity[n]
+			if !ok {
+				v = univ.Copy(cv)
+				perArity[n] = v
+				b.consts = append(b.consts, v)
+				b.snap = append(b.snap, univ.Copy(v))
+			}
+			return v
+		}
 		if r.Iter {
-			b.opts = append(b.opts, gojq.WithIterFunction(r.Name, r.Min, r.Max, iterCallback(r.Body, cv, &b.calls)))
+			b.opts = append(b.opts, gojq.WithIterFunction(r.Name, r.Min, r.Max, iterCallback(r.Body, constFor, &b.calls)))
 		} else {
-			b.opts = append(b.opts, gojq.WithFunction(r.Name, r.Min, r.Max, funcCallback(r.Body, cv, &b.calls)))
+			b.opts = append(b.opts, gojq.WithFunction(r.Name, r.Min, r.Max, funcCallback(r.Body, constFor, &b.calls)))
 		}
 		if b.model[r.Name] == nil {
 			b.model[r.Name] = map[int]int{}
@@ -318,7 +334,7 @@ func build(regs []regSpec) (*built, error) {
 			for k := n; k >= 1; k-- { // the last argument in the outermost loop
 				fmt.Fprintf(&sb, "a%d as $a%d | ", k, k)
 			}
-			sb.WriteString("(" + bodyText(regs[i].Body, n, b.consts[i]) + "); ")
+			sb.WriteString("(" + bodyText(regs[i].Body, n, b.base[i]) + "); ")
 		}
 	}
 	b.prefix = sb.String()
